@@ -2,7 +2,7 @@ P = dict(
     bin="egv_c08", trace="Trace_C08", level="exploration",
     mc=[dict(module="MC_C08", quick_cfg="MC_C08.cfg", workers=2),
         dict(module="MC_C08", quick_cfg="MC_C08_control.cfg", expect_violation=True, coverage=False, workers=2)],
-    features={"quick": [None], "thorough": [None, "fixed_point"]},
+    features={"quick": [None, "@deep"], "thorough": [None, "fixed_point", "@deep"]},
     required_events=["calls"],
     level_text="every constructor / query / draw call of boundary-biased display-scale inputs (all drawable kinds, adapter stack, "
                "text incl. the null font, images and sub-images, Framebuffer and raw load/store with out-of-range arguments) is "
